@@ -43,6 +43,8 @@ type TransferPlan struct {
 	MagnetTiers  [][]string `json:"magnet_tiers,omitempty"`
 	// DiskWriteLatMax stretches the window in which a piece write is in flight.
 	DiskWriteLatMax time.Duration `json:"disk_write_lat_max,omitempty"`
+	// API: concurrent API / RPC users (C20).
+	API *APISpec `json:"api,omitempty"`
 	// Limits: the C17 monitor and its extra actors.
 	Limits *LimitsSpec `json:"limits,omitempty"`
 	// WriteErrAt: the n-th data write (counted over the run) fails with ENOSPC before FaultsStop.
@@ -530,6 +532,10 @@ func RunTransfer(env *Env, plan *TransferPlan) {
 		}
 	}
 
+	var apiClients []*apiClient
+	if plan.API != nil {
+		apiClients = w.startAPIClients()
+	}
 	var limMon *limitsMon
 	if plan.Limits != nil {
 		limMon = w.startLimits(sutAddr)
@@ -643,6 +649,10 @@ func RunTransfer(env *Env, plan *TransferPlan) {
 	env.NonTriv = w.writesBegun > 0 || plan.PreSeeded
 	if limMon != nil {
 		limMon.finish()
+	}
+	if apiClients != nil {
+		time.Sleep(2 * time.Minute)
+		checkAPIHang(apiClients)
 	}
 	env.SigAdd("np=%d nf=%d pl=%d peers=%d ws=%d", T.NumPieces, len(T.Files), T.PieceLen, len(plan.Peers), len(plan.Webseeds))
 	simrt.FreezeTrace()
